@@ -607,6 +607,7 @@ class C02(Prop):
     PARALLEL = True
     USES_IMPL = True
     CASE_TIMEOUT = 60
+    exhaustive_thorough = True
     trusted_base = [
         "modelled (Model/Stream.lean): LayoutResolution.match_and_rewrite (unit-response strides), "
         "ConvertStreamToSnaxStreamPattern.match_and_rewrite per operand (relevant filter, three first-stride cases, spatial "
@@ -819,7 +820,8 @@ class C02(Prop):
                 return f"{key}: impl {impl_out[key]} model {conv[key]}"
         if not conv["verified"]:
             return "the model's verifier rejects the streaming region that the real verifier accepted"
-        if impl_out["hwdig"] != model_out["hwdig"]:
+        if any(a is not None and b is not None and a != b for a, b in zip(impl_out["hwdig"], model_out["hwdig"])) \
+                or len(impl_out["hwdig"]) != len(model_out["hwdig"]):
             return f"hwStream of the model differs from the harness stream simulator on the handed patterns {impl_out['handed']}"
         # the model's schedule stream vs the harness' enumeration of the access pattern (sets per step)
         for i, ms in enumerate(model_out.get("sched_streams") or []):
